@@ -104,3 +104,20 @@ func VerifInnerAdapter(a Adapter) any {
 	}
 	return a
 }
+
+// VerifResidue counts what the in-memory indexes hold: room keys, socket keys and memberships.
+func VerifResidue(a Adapter) (roomKeys, sidKeys, memberships int) {
+	m, ok := VerifInnerAdapter(a).(*inMemoryAdapter)
+	if !ok {
+		return 0, 0, 0
+	}
+	m.mu.Lock()
+	defer m.mu.Unlock()
+	for _, s := range m.rooms {
+		memberships += s.Cardinality()
+	}
+	for _, s := range m.sids {
+		memberships += s.Cardinality()
+	}
+	return len(m.rooms), len(m.sids), memberships
+}
